@@ -973,6 +973,8 @@ Definition m_reshape (a b : val) : res :=
             | VC c => VL [VC c]
             | VY s => if reshape_guards_symbols then b else VL (chars s)
             | _ => b end in
+  (* a one-element shape [n], n > 0, is the count n (fix: commit): the members of b are taken as they are *)
+  let a := match a with VL [VI n] => if 0 <? n then VI n else a | _ => a end in
   match a with
   | VL la =>
       match ints_of la with
@@ -1018,10 +1020,8 @@ Definition m_reshape (a b : val) : res :=
             match lb with
             | [] => Unmod
             | _ =>
-                if array_size b' =? 0 then Unmod else
                 if n <? zlen lb
-                then (* np.resize(b, (a,)) flattens *)
-                  let r := cyc (Z.to_nat n) (np_flat b') in rejoin j r
+                then rejoin j (firstn (Z.to_nat n) lb)       (* b[:a] *)
                 else rejoin j (cyc (Z.to_nat n) lb)
             end
         | VY _ => if reshape_guards_symbols then Ok (VL (repeat b' (Z.to_nat n))) else Unmod
@@ -1190,6 +1190,162 @@ Definition m_range (a0 : val) : res :=
   | _ => Ok a
   end.
 
+(* ------------------------------------------------------------------ Power, Index-in-Depth, Amend, Amend-in-Depth *)
+(* _e_dyad_power on integers: np.power through binary64, converted back when whole; modelled for a non-negative
+   exponent and a result below 2^53 (exact) *)
+Definition sc_pow (a b : val) : res :=
+  match a, b with
+  | VI x, VI y => if (0 <=? y) && (Z.abs (x ^ y) <? 2 ^ 53) then Ok (VI (x ^ y)) else Unmod
+  | _, _ => Unmod
+  end.
+Definition m_power (a b : val) : res := vec2 (fuel2 a b) (leaf2n sc_pow) a b.
+
+(* np.asarray(a)[tuple(b)] : one index per array dimension; an object array has one dimension *)
+Fixpoint index_path (fuel : nat) (a : val) (path : list Z) : res :=
+  match fuel with
+  | O => NoFuel
+  | S f' =>
+      match path with
+      | [] => Ok a
+      | i :: rest =>
+          match a with
+          | VL l => if is_rect a then bind (py_index l i) (fun x => index_path f' x rest)
+                    else (match rest with [] => py_index l i | _ => Err end)
+          | _ => Err
+          end
+      end
+  end.
+Definition m_index_in_depth (a b : val) : res :=
+  match b with
+  | VL [] | VS [] => Ok b
+  | VI i => (match a with VL l => py_index l i | _ => Err end)
+  | VL lb => (match ints_of lb, a with
+              | Some zs, VL _ => index_path (S (List.length zs)) a zs
+              | Some _, _ => Err
+              | None, _ => Unmod end)
+  | _ => Unmod
+  end.
+
+Fixpoint replace_at {A} (i : nat) (x : A) (l : list A) : list A :=
+  match l, i with
+  | [], _ => []
+  | _ :: r, O => x :: r
+  | y :: r, S i' => y :: replace_at i' x r
+  end.
+(* an index as numpy.put / Python item assignment takes it: negative counts from the end *)
+Definition wrap_index (n : Z) (i : Z) : option nat :=
+  if (0 <=? i) && (i <? n) then Some (Z.to_nat i) else if (i <? 0) && (- n <=? i) then Some (Z.to_nat (n + i)) else None.
+Fixpoint put_all {A} (x : A) (idx : list Z) (l : list A) : option (list A) :=
+  match idx with
+  | [] => Some l
+  | i :: r => match wrap_index (zlen l) i with Some k => put_all x r (replace_at k x l) | None => None end
+  end.
+(* the value as it is stored into an array of the given numeric dtype (numpy.put casts) *)
+Definition cast_into (isreal : bool) (v : val) : option val :=
+  match v with
+  | VI z => Some (if isreal then VR (rofZ z) else v)
+  | VR r => if isreal then Some v else match rfloor_exact (SFabs r) with
+                                       | Some z => Some (VI (match r with S754_finite true _ _ => Z.opp z | _ => z end))   (* truncation *)
+                                       | None => None end
+  | _ => None
+  end.
+(* the string loop of eval_dyad_amend on cells (a cell holds the characters one array element contributes) *)
+Fixpoint splice {A} (i : nat) (q : list A) (l : list A) : list A :=
+  match q with [] => l | c :: q' => splice (S i) q' (replace_at i c l) end.
+Fixpoint amend_str (v : list Z) (idx : list Z) (cells : list (list Z)) : result (list (list Z)) :=
+  match idx with
+  | [] => Ok cells
+  | i :: r =>
+      if i <? 0 then Unmod else
+      let n := zlen cells in
+      if i + zlen v <=? n then amend_str v r (splice (Z.to_nat i) (map (fun c => [c]) v) cells)
+      else if n <? i then amend_str v r cells                   (* RangeError(i) is constructed, not raised *)
+      else if i =? n then amend_str v r (cells ++ [v])
+      else amend_str v r (replace_at (Z.to_nat i) v cells)
+  end.
+Definition index_ints (l : list val) : option (list Z) :=
+  (* numpy.asarray(b[1:], dtype=int) *)
+  (fix go (l : list val) : option (list Z) :=
+     match l with
+     | [] => Some []
+     | VI z :: r => option_map (cons z) (go r)
+     | VR x :: r => match cast_into false (VR x), go r with Some (VI z), Some zs => Some (z :: zs) | _, _ => None end
+     | _ => None
+     end) l.
+Definition m_amend (a b : val) : res :=
+  match a, b with
+  | (VL _ | VS _), VL lb =>
+      match lb with
+      | [] | [_] => Ok a
+      | v :: idxs =>
+          if negb (npdepth b =? 1)%nat then Unmod else
+          match index_ints idxs with
+          | None => Unmod
+          | Some zs =>
+              match a with
+              | VS s =>
+                  match text_of v, v with
+                  | Some t, (VC _ | VS _) => bind (amend_str t zs (map (fun c => [c]) s)) (fun cells => Ok (VS (List.concat cells)))
+                  | _, _ => Unmod
+                  end
+              | VL la =>
+                  match v with
+                  | VL _ => (match put_all v zs la with Some r => Ok (norm (VL r)) | None => Err end)   (* tolist, item assignment, kg_asarray *)
+                  | _ =>
+                      match rshape a with
+                      | Some [_] =>
+                          (match cast_into (has_real a) v with
+                           | Some v' => (match put_all v' zs la with Some r => Ok (VL r) | None => Err end)
+                           | None => (match la with [] => (match zs with [] => Ok a | _ => Err end) | _ => Err end) end)
+                      | Some _ => Unmod          (* numpy.put addresses the flattened matrix *)
+                      | None => (match put_all v zs la with Some r => Ok (VL r) | None => Err end)
+                      end
+                  end
+              | _ => Unmod
+              end
+          end
+      end
+  | (VL _ | VS _), _ => (match b with VS (_ :: _ :: _) => Unmod | VS _ => Ok a | _ => Err end)
+  | _, _ => Err
+  end.
+
+(* _e_dyad_amend_in_depth on a rectangular array: one index per dimension *)
+Fixpoint amend_path (fuel : nat) (a : val) (path : list Z) (v : val) : res :=
+  match fuel with
+  | O => NoFuel
+  | S f' =>
+      match path, a with
+      | [i], VL l =>
+          match wrap_index (zlen l) i with
+          | Some k => if forallb is_num l then Ok (VL (replace_at k v l)) else Unmod
+          | None => Err
+          end
+      | i :: rest, VL l =>
+          match wrap_index (zlen l) i with
+          | Some k => bind (amend_path f' (nth k l VU) rest v) (fun r => Ok (VL (replace_at k r l)))
+          | None => Err
+          end
+      | _, _ => Unmod
+      end
+  end.
+Definition m_amend_in_depth (a b : val) : res :=
+  match a, b with
+  | VL _, VL (v :: idxs) =>
+      if negb (is_rect a) || negb (npdepth b =? 1)%nat then Unmod else
+      match ints_of idxs with
+      | Some zs =>
+          if negb (List.length zs =? npdepth a)%nat then Unmod else
+          match v with
+          | VI _ | VR _ =>
+              (match cast_into (has_real a) v with Some v' => amend_path (S (List.length zs)) a zs v' | None => Unmod end)
+          | VC _ | VS _ | VY _ => amend_path (S (List.length zs)) a zs v
+          | _ => Unmod
+          end
+      | None => Unmod
+      end
+  | _, _ => Unmod
+  end.
+
 (* ------------------------------------------------------------------ dispatch by Python function name *)
 Open Scope string_scope.
 
@@ -1238,6 +1394,10 @@ Definition m_dyad (f : string) (a b : val) : res :=
   if f =? "eval_dyad_find" then m_find a b else
   if f =? "eval_dyad_match" then m_match a b else
   if f =? "eval_dyad_reshape" then m_reshape a b else
+  if f =? "eval_dyad_power" then m_power a b else
+  if f =? "eval_dyad_index_in_depth" then m_index_in_depth a b else
+  if f =? "eval_dyad_amend" then m_amend a b else
+  if f =? "eval_dyad_amend_in_depth" then m_amend_in_depth a b else
   Unmod.
 
 Definition modelled_monads : list string :=
@@ -1249,4 +1409,5 @@ Definition modelled_dyads : list string :=
   ["eval_dyad_add"; "eval_dyad_subtract"; "eval_dyad_multiply"; "eval_dyad_divide"; "eval_dyad_minimum"; "eval_dyad_maximum";
    "eval_dyad_remainder"; "eval_dyad_integer_divide"; "eval_dyad_less"; "eval_dyad_more"; "eval_dyad_equal";
    "eval_dyad_take"; "eval_dyad_drop"; "eval_dyad_rotate"; "eval_dyad_split"; "eval_dyad_cut"; "eval_dyad_join";
-   "eval_dyad_at_index"; "eval_dyad_find"; "eval_dyad_match"; "eval_dyad_reshape"].
+   "eval_dyad_at_index"; "eval_dyad_find"; "eval_dyad_match"; "eval_dyad_reshape";
+   "eval_dyad_power"; "eval_dyad_index_in_depth"; "eval_dyad_amend"; "eval_dyad_amend_in_depth"].
